@@ -292,6 +292,12 @@ class Tensor:
     def tolist(self):
         return self.a.tolist()
 
+    def __array__(self, dtype=None, copy=None):
+        # lets numpy arrays be indexed by integer / boolean tensors, as with real torch
+        if self.a.dtype == object:
+            raise TypeError("symbolic float tensor cannot be converted to a numpy array implicitly (use .numpy())")
+        return self.a if dtype is None else self.a.astype(dtype)
+
     def to(self, *args, **kw):
         dt = kw.get("dtype")
         for x in args:
